@@ -50,6 +50,14 @@ fn len(xs: List<a>) -> Int {
     [_, ..rest] -> 1 + len(rest)
   }
 }
+
+fn last_or_zero(xs: List<Int>) -> Int {
+  when xs is {
+    [] -> 0
+    [x] -> x
+    [_, ..rest] -> last_or_zero(rest)
+  }
+}
 "#;
 
 fn expectation(rng: &mut Rng) -> &'static str {
@@ -65,7 +73,8 @@ pub fn gen_props(rng: &mut Rng, n: usize) -> Vec<PropDef> {
     for i in 0..n {
         let e = expectation(rng);
         let k = rng.range(1, 254);
-        let (shape, src) = match rng.below(14) {
+        let long = rng.chance(1, 40);
+        let (shape, src) = match if long { 14 } else { rng.below(14) } {
             0 => (
                 "monotone-byte",
                 format!("test p{i}(x via fuzz.byte()){e} {{\n  x < {k}\n}}\n"),
@@ -141,6 +150,14 @@ pub fn gen_props(rng: &mut Rng, n: usize) -> Vec<PropDef> {
                     "test p{i}(x via fuzz.byte()){e} {{\n  expect x < {k}\n  True\n}}\n"
                 ),
             ),
+            // more than 64 choices per case: the shrinker's cache and passes work on long keys
+            14 => {
+                let n = rng.range(66, 72);
+                (
+                    "long-list-last-element",
+                    format!("test p{i}(xs via fuzz.list_n(fuzz.byte(), {n})){e} {{\n  last_or_zero(xs) < {k}\n}}\n"),
+                )
+            }
             _ => (
                 "always-false",
                 format!("test p{i}(x via fuzz.byte()){e} {{\n  x > 300\n}}\n"),
@@ -598,16 +615,24 @@ pub fn execute_case(case: &PropCase, epoch: u64) -> Result<CaseOutcome, String> 
 pub struct CacheCase {
     pub k: u8,
     pub threshold: u32,
+    /// the first choice must be below this (how many more choices are read); long keys matter:
+    /// a cache that only distinguishes a bounded prefix of the key is wrong only beyond it
+    #[serde(default = "six")]
+    pub n_max: u8,
     pub lookups: Vec<Vec<u8>>,
+}
+
+fn six() -> u8 {
+    6
 }
 
 /// Model fuzzer + property: first choice n (< 6) says how many more are read (each < k); the
 /// property fails when their sum exceeds the threshold. Trailing choices are never looked at.
-fn model(k: u8, threshold: u32, choices: &[u8]) -> Status<Vec<u8>> {
+fn model(k: u8, threshold: u32, n_max: u8, choices: &[u8]) -> Status<Vec<u8>> {
     let Some(n) = choices.first().copied() else {
         return Status::Invalid;
     };
-    if n >= 6 {
+    if n >= n_max {
         return Status::Invalid;
     }
     let n = n as usize;
@@ -628,9 +653,10 @@ fn model(k: u8, threshold: u32, choices: &[u8]) -> Status<Vec<u8>> {
 
 fn gen_cache_case(rng: &mut Rng) -> CacheCase {
     let k = 2 + rng.below(40) as u8;
-    let threshold = rng.below(60) as u32;
+    let n_max: u8 = *rng.pick(&[6u8, 6, 40, 100, 200]);
+    let threshold = if n_max == 6 { rng.below(60) as u32 } else { rng.below(n_max as u64 * k as u64 / 3 + 1) as u32 };
     let mut current: Vec<u8> = {
-        let n = rng.below(6) as u8;
+        let n = if n_max == 6 { rng.below(6) as u8 } else { (n_max as u64 / 2 + rng.below(n_max as u64 / 2)) as u8 };
         let mut v = vec![n];
         for _ in 0..n {
             v.push(rng.below(k as u64) as u8);
@@ -674,7 +700,7 @@ fn gen_cache_case(rng: &mut Rng) -> CacheCase {
         }
         lookups.push(c.clone());
         // Follow accepted improvements the way `consider` does.
-        if let Status::Keep(_) = model(k, threshold, &c) {
+        if let Status::Keep(_) = model(k, threshold, n_max, &c) {
             if shortlex_le(&c, &current) {
                 current = c;
             }
@@ -689,6 +715,7 @@ fn gen_cache_case(rng: &mut Rng) -> CacheCase {
     CacheCase {
         k,
         threshold,
+        n_max,
         lookups,
     }
 }
@@ -698,14 +725,15 @@ fn execute_cache_case(case: &CacheCase) -> (Vec<String>, usize, usize) {
     let runs = Cell::new(0usize);
     let k = case.k;
     let t = case.threshold;
+    let n_max = case.n_max;
     let mut cache: Cache<'_, Vec<u8>> = Cache::new(|choices: &[u8]| {
         runs.set(runs.get() + 1);
-        model(k, t, choices)
+        model(k, t, n_max, choices)
     });
     let mut mismatches = vec![];
     for (i, l) in case.lookups.iter().enumerate() {
         let got = cache.get(l);
-        let want = model(k, t, l);
+        let want = model(k, t, n_max, l);
         if got != want {
             mismatches.push(format!(
                 "lookup #{i} {l:?}: cache answers {got:?}, the uncached function answers {want:?}"
